@@ -778,7 +778,12 @@ def n1_flag(ctx, rep):
     # it is the first component of the chain result, and the caller's guard tests it
     rt = P.I.ret_term(body)
     members = {notify_v, keep_v}
+    def carries(a):
+        # the flag itself, or (an early return taken before any reducer ran) its initial value
+        return a[0] == "agg" and any((x[0] == "phi" and set(x[1]) == members) or (flag_const(ctx, x) == want and want is not None) for x in a[2])
     ok_ret = rt[0] == "agg" and any(x[0] == "phi" and set(x[1]) == members for x in rt[2])
+    if not ok_ret and rt[0] == "phi":
+        ok_ret = all(carries(m) for m in rt[1]) and any(m[0] == "agg" and any(x[0] == "phi" and set(x[1]) == members for x in m[2]) for m in rt[1])
     rep.check(ok_ret, R, "flag-returned:" + short(body.path), ctx.where(body), "chain result carries the flag", "chain result is %s" % term_str(rt))
     ctx._notify_flag = (body, fl)
     ctx._notify_values = (notify_v, keep_v)
